@@ -92,7 +92,8 @@ Lemma on_disconnected_spec s c : let s' := on_disconnected s c in
   stopping s' = stopping s /\ pumpStuck s' = pumpStuck s /\ exists evs, str s' = evs ++ str s /\ Forall quiet evs.
 Proof.
   unfold on_disconnected. cbv zeta.
-  set (s1 := upd_qm s (a_del (qm s) c)).
+  set (sq := upd_qm s (a_del (qm s) c)).
+  set (s1 := upd_removed sq (c :: del c (removed sq))).
   set (s2 := if running s1 then upd_reqC s1 (reqC s1 ++ [c]) else s1).
   set (s3 := upd_pendm s2 (a_del (pendm s2) c)).
   set (s4 := fold_left _ (cbs_of s3 c) s3).
@@ -103,7 +104,7 @@ Proof.
     destruct (drain s5); [apply quiet_ext_semit; exact I|apply quiet_ext_refl]. }
   destruct Q as [A1 A2 A3 A4 A5 A8 A6].
   assert (B : qm s3 = a_del (qm s) c /\ pendm s3 = a_del (pendm s) c /\ conns s3 = conns s /\ running s3 = running s /\ stopping s3 = stopping s /\ pumpStuck s3 = pumpStuck s /\ str s3 = str s).
-  { subst s3 s2 s1. destruct (running (upd_qm s (a_del (qm s) c))); cbn; repeat split; reflexivity. }
+  { unfold s3, s2. destruct (running s1); unfold s1, sq; cbn; repeat split; reflexivity. }
   destruct B as (B1 & B2 & B3 & B4 & B5 & B8 & B6).
   rewrite A1, A2, A3, A4, A5, A8, B1, B2, B3, B4, B5, B8. repeat split. rewrite <- B6. exact A6.
 Qed.
@@ -406,8 +407,9 @@ Proof.
   - (* SPumpReq *)
     destruct (pumpAlive s && negb (pumpStuck s)); [|exact Hi].
     destruct (reqC s) as [|c rest] eqn:Er; [exact Hi|]. cbv zeta.
-    set (s1 := upd_reqC s rest).
-    assert (I1 : SInv s1) by (apply (SInv_core s); [constructor; reflexivity|exact Hi]).
+    set (s0 := upd_reqC s rest).
+    set (s1 := if mem c (removed s0) then upd_ctxm (upd_removed s0 (del c (removed s0))) (a_del (ctxm s0) c) else s0).
+    assert (I1 : SInv s1) by (apply (SInv_core s); [unfold s1; destruct (mem c (removed s0)); constructor; reflexivity|exact Hi]).
     destruct (qof s1 c) eqn:Eq.
     + apply SInv_stail; [|right; reflexivity]. 
       match goal with |- SInv (upd_loc ?x _ _ _) => apply (SInv_core x); [constructor; reflexivity|exact I1] end.
